@@ -18,10 +18,13 @@ func TestWorker(t *testing.T) {
 		"C01/tamper": runTamper,
 		"C01/expiry": runExpiry,
 		"C04/tamper": runTamper,
+		"C05/spoof":    runSpoof,
+		"C06/linktype": runLinkType,
 		"C11/ports":  runPorts,
 		"C17/config": runConfig,
 		"C07/scmp":   runSCMP,
 		"C09/scmp":   runSCMP,
 		"C10/scmp":   runSCMP,
+		"C10/expiry": runExpiry,
 	}})
 }
